@@ -46,6 +46,24 @@ def const_usize(ctx, path):
         return None
 
 
+def fold_index(p):
+    """'[Sub(utils::..::DIM_2D_BOX=5, 1:usize)]' -> '[4]': an index written as constant arithmetic over named constants"""
+    import re
+    m = re.match(r'^\[(.*)\]$', p)
+    if not m or re.match(r'^\d+$', m.group(1)):
+        return p
+    t = re.sub(r'[A-Za-z_][\w:<>]*=(\d+)', r'\1', m.group(1))
+    t = re.sub(r'(\d+):[iu](?:size|8|16|32|64)', r'\1', t)
+    for _ in range(8):
+        t2 = re.sub(r'(Sub|Add|Mul)(?:WithOverflow|Unchecked)?\((\d+), (\d+)\)(?:\.0)?',
+                    lambda k: str({'Sub': lambda a, b: a - b, 'Add': lambda a, b: a + b, 'Mul': lambda a, b: a * b}[k.group(1)](
+                        int(k.group(2)), int(k.group(3)))), t)
+        if t2 == t:
+            break
+        t = t2
+    return '[%s]' % t if re.match(r'^\d+$', t) else p
+
+
 def gate_rule(ctx, R):
     n = 0
     for flt, dimpath in DIMS.items():
@@ -72,7 +90,7 @@ def gate_rule(ctx, R):
                         from lib import resolve_const_item
                         o = (o[0], o[1], resolve_const_item(ctx.F, o[2]))
                     if o and o[2].kind == 'const' and 'CHI2INV95' in (o[2].const.get('item') or ''):
-                        gate = (o[0], ''.join(o[2].proj))
+                        gate = (o[0], ''.join(fold_index(p_) for p_ in o[2].proj))
             val = eb._rvalue(d[3]['rv'], (), 0, (d[1], d[2]))
             rows.append((inv, gate, val, d[3]['ln']))
         name = flt.rsplit('::', 1)[-1]
